@@ -32,11 +32,15 @@ def check_list(points, tol, slack=0, as_tuples=False):
     desc = f"supersample({[tuple(p) for p in original]}, {tol})" + \
         (" [vertices as tuples]" if as_tuples else "")
     core.rejected(plot_utils.supersample, [[0, 0], [1], [2, 2]], 1)           # a vertex without y
+    # the reduction may look at every vertex of a run once per vertex it adds to the run (the
+    # present code does): the time allowed grows with the square of the length, generously - the
+    # clause is about not returning at all, not about speed, also on a loaded machine
+    budget = 5.0 + 30.0 * (len(points) / 1000.0) ** 2
     try:
-        with core.watchdog(5.0):
+        with core.watchdog(budget):
             ret = plot_utils.supersample(work, tol)
     except core.CaseTimeout:
-        return [("loop", f"{desc} did not return within 5 s")], 0
+        return [("loop", f"{desc} did not return within {budget:.0f} s")], 0
     except Exception as exc:                # pylint: disable=broad-except
         return [("raise", f"{desc} raised {type(exc).__name__}: {exc}")], 0
     out = []
@@ -71,13 +75,13 @@ def check_list(points, tol, slack=0, as_tuples=False):
         table = {}
         shared = [table.setdefault(tuple(p), list(p)) for p in points]
         try:
-            with core.watchdog(5.0):
+            with core.watchdog(budget):
                 plot_utils.supersample(shared, tol)
             left_over = [tuple(v) for v in shared]
         except Exception as exc:            # pylint: disable=broad-except
             left_over = f"raised {type(exc).__name__}: {exc}"
         except core.CaseTimeout:
-            left_over = "no return within 5 s"
+            left_over = f"no return within {budget:.0f} s"
         if left_over != [tuple(points[i]) for i in idx]:
             out.append(("shared_objects", f"{desc}: with equal vertices held in one shared object "
                         f"the result is {left_over!r}; with separate objects it keeps indices "
